@@ -10,6 +10,7 @@ dsmodel_wire_quant: the specification readers/writers of the KLL / REQ / classic
 fam in kll | req | quant ; ty in f32 | f64 | i64 | str.  Constants come from DSGen (the CURRENT headers).
 -/
 import DSModel.Wire.KllCode
+import DSModel.Wire.QuantilesCode
 import DSModel.DriverLoop
 import DSModel.Util
 open DS DS.Wire
@@ -30,10 +31,52 @@ def decodeKll (ty : ItemType) (b : Bytes) : Option Decoded :=
            size := Kll.serializedSize sd Kll.codeCfg img, rest := r.length,
            fields := fieldsLine (Kll.fields sd (ty == .str) img) }
 
+def decodeQuant (ty : ItemType) (b : Bytes) : Option Decoded :=
+  let sd := ty.serde
+  let c := Quantiles.codeCfg
+  match Quantiles.decode sd c b with
+  | none => none
+  | some (img, r) =>
+    some { content := (Quantiles.project img).line, reenc := Quantiles.encode sd c img,
+           size := Quantiles.serializedSize sd c img, rest := r.length,
+           fields := fieldsLine (Quantiles.fields sd (ty == .str) c img) }
+
 def decodeKind (fam : String) (ty : ItemType) (b : Bytes) : Option Decoded :=
   match fam with
   | "kll" => decodeKll ty b
+  | "quant" => decodeQuant ty b
   | _ => none
+
+def tyName : ItemType → String
+  | .f32 => "f32" | .f64 => "f64" | .i64 => "i64" | .str => "str"
+
+def parseItems (l : List String) : Option (List Item) :=
+  l.mapM (fun s => (parseHexBytes s).map (·.toList))
+
+def chunks (k : Nat) : Nat → List Item → List (List Item)
+  | 0, _ => []
+  | m + 1, l => l.take k :: chunks k m (l.drop k)
+
+/-- LEGACY quant.<ty> <ver 1|2> <k> <unused> <pad> <n> <min> <max> <items...>: items = base buffer (n mod 2k), then for
+serial version 1 with levels the surplus slots (2k - n mod 2k), then k per valid level -/
+def quantLegacy (ty : ItemType) (w : List String) : String :=
+  match w with
+  | ver :: k :: unused :: pad :: n :: mn :: mx :: items =>
+    match ver.toNat?, k.toNat?, unused.toNat?, pad.toNat?, n.toNat?, parseHexBytes mn, parseHexBytes mx, parseItems items with
+    | some ver, some k, some unused, some pad, some n, some mn, some mx, some items =>
+      let c := Quantiles.codeCfg
+      let sd := ty.serde
+      let bbN := n % (2 * k)
+      let exN := if ver == c.ver1 && n / (2 * k) != 0 then 2 * k - bbN else 0
+      let body : Quantiles.Body :=
+        { n := n, min := mn.toList, max := mx.toList, v1pad := pad, bb := items.take bbN, extra := (items.drop bbN).take exN,
+          levels := chunks k (Quantiles.popCount (n / (2 * k))) (items.drop (bbN + exN)) }
+      let img := if ver == c.ver1 then Quantiles.legacyV1 c k unused body else Quantiles.legacyV2 c k unused body
+      if Quantiles.WF sd c img then
+        "IMG quant." ++ tyName ty ++ " " ++ listBytesHex (Quantiles.encodeLegacy sd c img) ++ " | " ++ (Quantiles.project img).line
+      else "BAD not-wf"
+    | _, _, _, _, _, _, _, _ => "BAD args"
+  | _ => "BAD args"
 
 def parseKind (s : String) : Option (String × ItemType) :=
   match s.splitOn "." with
@@ -77,6 +120,7 @@ def step (_ : Unit) (w : List String) : Unit × String :=
       if cmd == "LEGACY" then
         ((), match fam with
              | "kll" => kllLegacy ty rest
+             | "quant" => quantLegacy ty rest
              | _ => "BAD family")
       else
       match rest with
